@@ -37,6 +37,7 @@ import ssl
 from hio.base import tyming
 from hio.core.tcp import serving as tcpserving
 from hio.core.http import serving as httpserving
+from hio.core import wiring
 
 from vf import env
 from vf.mon import ledger as ledgermod
@@ -54,7 +55,8 @@ RULE = ("cases = configuration x activity schedules. configuration: {WSGI Server
         "byte, one early fragment, burst of fragments, periodic single bytes of an unfinished head with period <T, =T, "
         ">T, HTTP/1.0 POST head then body dribbled with period <T, complete HTTP/1.0 request, HTTP/1.1 Connection: close "
         "request, HTTP/1.0 request to an application that never answers, non-persistent request for a response of 2*tcp_wmem_max+2 MiB "
-        "whose reader stalls (small pinned receive buffer, never reads: every later send would-blocks), persistent HTTP/1.1 request (exempt after its "
+        "whose reader stalls (small pinned receive buffer, never reads: every later send would-blocks), non-persistent request whose response the application streams for k*T (k in 2..8, a send every p "
+        "tocks, p*tock < T) while the client only reads, with and without a WireLog on the servant, persistent HTTP/1.1 request (exempt after its "
         "head), client closes}. Non-trivial = some connection reached an idle deadline or was observed active across "
         ">= 2 windows; distinct = configuration, T/tock and the per-connection (schedule, outcome) list.")
 ASSUMPTIONS = [
@@ -78,6 +80,13 @@ REQUIRE = {
     "service_calls": 10000,
     "configs": 3,
     "stalled_reader_deadlines_judged": 60,
+    "streamed_responses_completed": 100,
+    "streams_with_a_send_in_every_window": 100,
+    "stream_tx_events": 2000,
+    "streams.wsgi-tls.nowl": 20,
+    "streams.wsgi-tls.wl": 20,
+    "streams.wsgi.nowl": 20,
+    "streams.wsgi.wl": 20,
     "blocked_sends_observed": 1000,
 }
 LEVEL_TEXT = ("Every service() call of every generated schedule is judged by the loosest idle deadline, the "
@@ -130,7 +139,30 @@ def _client_ctx():
     return _proc["cctx"]
 
 
-def app(environ, start_response):
+def make_app(tymist, tock):
+    """WSGI application of one case; /stream paces itself on the case's virtual clock"""
+    def app(environ, start_response):
+        return _app(environ, start_response, tymist, tock)
+    return app
+
+
+def _app(environ, start_response, tymist, tock):
+    if environ.get("PATH_INFO") == "/stream":
+        # n parts, one every p tocks of virtual tyme; nothing (empty yield) in the rounds between
+        q = dict(kv.split("=") for kv in environ.get("QUERY_STRING", "").split("&") if "=" in kv)
+        n, p = int(q.get("n", 4)), int(q.get("p", 1))
+        start_response("200 OK", [("Content-Type", "text/plain")])
+
+        def stream():
+            sent, last = 0, None
+            while sent < n:
+                if last is None or tymist.tyme - last >= p * tock:
+                    last = tymist.tyme
+                    sent += 1
+                    yield b"part-%05d\n" % sent
+                else:
+                    yield b""
+        return stream()
     if environ.get("PATH_INFO") == "/stall":
         start_response("200 OK", [("Content-Type", "text/plain")])
 
@@ -152,7 +184,7 @@ def _lat(b):
     return b.decode("latin-1")
 
 
-def _schedule(rng, kind, m):
+def _schedule(rng, kind, m, k=None):
     """m = T / tock (may be x.5). Returns (events, persistent)"""
     ev = []
     mi = max(1, int(math.ceil(m)))
@@ -192,6 +224,16 @@ def _schedule(rng, kind, m):
         ev.append([s + rng.randint(0, 1), "send", _lat(REQ11CLOSE[cut:])])
     elif kind == "app_stall":
         ev.append([rng.randint(0, mi), "send", _lat(REQSTALL)])
+    elif kind == "stream_read":
+        # non-persistent request whose response is streamed for k*T: a send every p tocks (p*tock < T), client only reads
+        p = rng.randint(1, max(1, int(math.ceil(m)) - 1))
+        k = k if k is not None else rng.randint(2, 8)
+        n = max(2, int(k * m / p))
+        line = "GET /stream?n=%d&p=%d HTTP/1.0\r\n\r\n" % (n, p)
+        if rng.random() < 0.5:
+            line = "GET /stream?n=%d&p=%d HTTP/1.1\r\nHost: localhost\r\nConnection: close\r\n\r\n" % (n, p)
+        ev.append([rng.randint(0, max(0, int(math.ceil(m)) - 1)), "send", line])    # request before the first T elapses
+        ev.append([ev[0][0] + n * p + 2, "stream_end"])      # marker only: how long the stream lasts
     elif kind == "big_stall":
         # non-persistent request for a response far larger than the socket buffers; the client never reads
         ev.append([rng.randint(0, mi), "send", _lat(rng.choice([REQBIG10, REQBIG11CLOSE]))])
@@ -210,10 +252,10 @@ def _schedule(rng, kind, m):
 
 
 KINDS = ["never", "never", "once", "burst", "periodic_lt", "periodic_lt", "periodic_eq", "periodic_gt", "dribble_body",
-         "complete10", "close11", "app_stall", "persistent", "client_close", "big_stall"]
+         "complete10", "close11", "app_stall", "persistent", "client_close", "big_stall", "stream_read"]
 
 
-def _gen(rng, cfg=None, m=None, kinds=None):
+def _gen(rng, cfg=None, m=None, kinds=None, wl=None, k=None):
     cfg = cfg or rng.choice(["wsgi", "wsgi", "wsgi-tls", "bare"])
     tock = rng.choice(TOCKS)
     m = m if m is not None else rng.choice(TMULT)
@@ -222,17 +264,20 @@ def _gen(rng, cfg=None, m=None, kinds=None):
     nsend = 0
     for i in range(len(kinds) if kinds else rng.randint(1, 4)):
         kind = kinds[i] if kinds else rng.choice(KINDS)
-        if cfg == "bare" and kind in ("app_stall", "big_stall"):
+        if cfg == "bare" and kind in ("app_stall", "big_stall", "stream_read"):
             kind = "never"
+        if kind == "stream_read" and m <= 1:
+            kind = "never"          # no period p with p*tock < T
         start = rng.randint(0, 3) if i else 0
-        ev = _schedule(rng, kind, m)
+        ev = _schedule(rng, kind, m, k)
         conns.append({"kind": kind, "start": start, "events": ev})
         for e in ev:
             last = max(last, start + e[0])
         nsend = max(nsend, sum(1 for e in ev if e[1] == "send"))
     # run long enough for the loosest deadline of the busiest connection: (n+1)*T after its accept, plus slack
     steps = min(420, last + int(math.ceil((nsend + 3) * m)) + 4)
-    return {"cfg": cfg, "wind": rng.choice(["ctor", "wind"]), "tock": tock, "m": m, "conns": conns, "steps": steps}
+    return {"cfg": cfg, "wind": rng.choice(["ctor", "wind"]), "tock": tock, "m": m, "conns": conns, "steps": steps,
+            "wl": (rng.random() < 0.4) if wl is None else wl}
 
 
 def cases(tier, seed, shard, nshards):
@@ -256,6 +301,16 @@ def cases(tier, seed, shard, nshards):
                 else:
                     _gen(grid, cfg, m, kinds)
                 i += 1
+    # fixed grid 3: streamed response to a client that keeps reading, with and without a WireLog on the servant
+    for cfg in ("wsgi", "wsgi-tls"):
+        for wl in (False, True):
+            for m in (2, 3, 4, 8):
+                for k in (2, 5, 8):
+                    if i % nshards == shard:
+                        yield _gen(grid, cfg, m, ["stream_read"], wl, k)
+                    else:
+                        _gen(grid, cfg, m, ["stream_read"], wl, k)
+                    i += 1
     rng = random.Random(f"{seed}:C12:{shard}")
     n = (2000 if tier == "quick" else 40000) // nshards
     for _ in range(n):
@@ -298,6 +353,7 @@ class Conn:
         self.flagged = False
         self.eof = False
         self.eof_polls = 0
+        self.received = b""          # what a reading client got (stream_read)
         self.active_windows = 0
         self.deadline_seen = False
         self.tymeout_first = None    # remoter.tymeout as constructed (recorded by the Remoter.__init__ wrapper)
@@ -318,6 +374,7 @@ class Run:
         self.conns = [Conn(i, c) for i, c in enumerate(case["conns"])]
         self.remoters = []
         self.server = None
+        self.wl = None
         self.trace = []
 
     # -- construction --------------------------------------------------------
@@ -328,13 +385,18 @@ class Run:
             kw = dict(host=HOST, port=port)
             if case["wind"] == "ctor":
                 kw["tymth"] = self.tymist.tymen()
+            if case.get("wl"):
+                if self.wl is None:
+                    self.wl = wiring.WireLog(samed=True)     # in-memory wire log
+                    self.wl.reopen()
+                kw["wl"] = self.wl
             if self.tls:
                 kw.update(scheme="https", keypath=_cert("server_key.pem"), certpath=_cert("server_cert.pem"),
                           certify=ssl.CERT_NONE)
             if self.cfg == "bare":
                 srv = httpserving.BareServer(timeout=self.T, **kw)
             else:
-                srv = httpserving.Server(app=app, tymeout=self.T, **kw)
+                srv = httpserving.Server(app=make_app(self.tymist, self.tock), tymeout=self.T, **kw)
             if case["wind"] == "wind":
                 if hasattr(srv, "wind"):
                     srv.wind(self.tymist.tymen())
@@ -365,6 +427,7 @@ class Run:
         except Exception as ex:        # not this property (C16); what happened to the sockets is still judged
             raised = True
             ctx.count("service_raised")
+            ctx.count(f"service_raised.{self.cfg}.{type(ex).__name__}")
             ctx.seen("service_exceptions", [self.cfg, type(ex).__name__])
             self.trace.append(f"tyme {now}: service raised {ex!r}")
         ctx.count("service_calls")
@@ -478,6 +541,7 @@ class Run:
                 data = c.sock.recv(65536)
                 if data == b"":
                     return True
+                c.received += data
             except (ssl.SSLWantReadError, ssl.SSLWantWriteError, BlockingIOError):
                 return False
             except (ssl.SSLError, OSError):
@@ -517,6 +581,21 @@ class Run:
                 select.select([], [], [], 0.0005)
         raise HarnessError("TLS handshake with the server did not complete in 80 service rounds")
 
+    def read_all(self, c):
+        """the client of a streamed response only reads"""
+        for _ in range(64):
+            try:
+                data = c.sock.recv(65536)
+            except (ssl.SSLWantReadError, ssl.SSLWantWriteError, BlockingIOError):
+                return
+            except (ssl.SSLError, OSError):
+                c.eof = True
+                return
+            if not data:
+                c.eof = True
+                return
+            c.received += data
+
     def send(self, c, data):
         if c.sock is None or c.client_closed:
             return
@@ -545,11 +624,16 @@ class Run:
                         if ev[0] == rel:
                             if ev[1] == "send":
                                 self.send(c, ev[2].encode("latin-1"))
+                            elif ev[1] == "stream_end":
+                                pass
                             elif ev[1] == "close" and not c.client_closed:
                                 c.sock.close()
                                 c.client_closed = True
                                 ctx.count("client_closes")
             self.svc()
+            for c in self.conns:
+                if c.kind == "stream_read" and c.sock is not None and not c.eof:
+                    self.read_all(c)
             self.tymist.tick()
         # a stalled-reader connection's deadline a0+(n+1)T depends on how many sends the kernel took before it
         # blocked, which is only known at run time: keep servicing (bounded) until each one has been judged
@@ -569,6 +653,26 @@ class Run:
                         ctx.count("stalled_reader_deadlines_judged")
                     elif c.entry.open:
                         ctx.count("stalled_reader_deadline_not_reached_obs")
+        for c in self.conns:
+            if c.kind != "stream_read" or c.entry is None:
+                continue
+            want = int(c.spec["events"][0][2].split("n=")[1].split("&")[0])
+            got = c.received.count(b"part-")
+            txs = [t for (t, d, n_) in c.entry.events if d == "tx"]
+            ctx.count("streams_started")
+            ctx.count("streams.%s.%s" % (self.cfg, "wl" if self.wl is not None else "nowl"))
+            ctx.count("stream_tx_events", len(txs))
+            per_window = [sum(1 for u in txs if t <= u < t + self.T) for t in txs if t + self.T <= txs[-1]] if txs else []
+            if per_window:
+                ctx.count("stream_windows_counted", len(per_window))
+                ctx.seen("stream_min_sends_per_window", min(per_window))
+                if min(per_window) >= 1:
+                    ctx.count("streams_with_a_send_in_every_window")
+            if got == want and not c.entry.open:
+                ctx.count("streamed_responses_completed")
+            elif c.outcome != "idle-closed":
+                ctx.count("stream_incomplete_other_reason_obs")
+                self.trace.append(f"stream conn {c.idx}: got {got}/{want} parts outcome {c.outcome}")
         nontrivial = False
         outcomes = []
         for c in self.conns:
@@ -595,6 +699,11 @@ class Run:
         if self.server is not None:
             try:
                 self.server.close()
+            except Exception:
+                pass
+        if self.wl is not None:
+            try:
+                self.wl.close()
             except Exception:
                 pass
 
